@@ -43,7 +43,9 @@ def tensor {α : Type} [Mul α] (a b : Sym α) : Sym α :=
 `W_i · W_{i+1} ⋯ W_{L-1} · e_fin` -/
 def gridPaths {α : Type} [Mul α] [One α] (fin : Nat) : List (Grid α) → Nat → Sym α
   | [], a => if a = fin then [([], 1)] else []
-  | G :: rest, a => ((G.getD a []).zipIdx).flatMap (fun sb => tensor sb.1 (gridPaths fin rest sb.2))
+  | G :: rest, a => ((G.getD a []).zipIdx).flatMap (fun sb =>
+      -- (an empty entry contributes nothing; the test only keeps the evaluation from walking all index paths)
+      if sb.1.isEmpty then [] else tensor sb.1 (gridPaths fin rest sb.2))
 
 /-- `states[i][key]` of the ordered states (python dict `{state: index}`) -/
 def keyIdx : List Key → Key → Option Nat
